@@ -8,6 +8,7 @@ import (
 	"go/constant"
 	"go/token"
 	"go/types"
+	"math/big"
 	"sort"
 	"strings"
 
@@ -20,6 +21,33 @@ func constBig(v ssa.Value) (string, bool) {
 		return "", false
 	}
 	return constant.ToInt(k.Value).ExactString(), true
+}
+
+// leqBranch reads an If on `x <= K`, `x < K`, `x > K` or `x >= K` as "x <= T on successor succ".
+func leqBranch(iff *ssa.If) (x ssa.Value, T string, succ int, ok bool) {
+	bo, isBo := iff.Cond.(*ssa.BinOp)
+	if !isBo {
+		return nil, "", 0, false
+	}
+	ks, isK := constBig(bo.Y)
+	if !isK {
+		return nil, "", 0, false
+	}
+	k, good := new(big.Int).SetString(ks, 10)
+	if !good {
+		return nil, "", 0, false
+	}
+	switch bo.Op {
+	case token.LEQ:
+		return bo.X, k.String(), 0, true
+	case token.LSS:
+		return bo.X, new(big.Int).Sub(k, big.NewInt(1)).String(), 0, true
+	case token.GTR:
+		return bo.X, k.String(), 1, true
+	case token.GEQ:
+		return bo.X, new(big.Int).Sub(k, big.NewInt(1)).String(), 1, true
+	}
+	return nil, "", 0, false
 }
 
 // hdrStore describes one constant-index store into the output buffer.
@@ -82,14 +110,12 @@ func encoderHeaders(c *Ctx, r *RuleResult, fn *ssa.Function) (map[string][]hdrSt
 	thr := map[*ssa.BasicBlock]string{}
 	for _, b := range fn.Blocks {
 		if iff, ok := b.Instrs[len(b.Instrs)-1].(*ssa.If); ok {
-			if bo, ok := iff.Cond.(*ssa.BinOp); ok && bo.Op == token.LEQ {
-				if k, ok := constBig(bo.Y); ok {
-					if n == nil {
-						n = bo.X
-					}
-					if bo.X == n {
-						thr[b.Succs[0]] = k
-					}
+			if x, k, succ, ok := leqBranch(iff); ok {
+				if n == nil {
+					n = x
+				}
+				if x == n {
+					thr[b.Succs[succ]] = k
 				}
 			}
 		}
@@ -153,10 +179,8 @@ func headerHost(c *Ctx, fn *ssa.Function) *ssa.Function {
 		n := 0
 		for _, b := range f.Blocks {
 			if iff, ok := b.Instrs[len(b.Instrs)-1].(*ssa.If); ok {
-				if bo, ok := iff.Cond.(*ssa.BinOp); ok && bo.Op == token.LEQ {
-					if k, ok := constBig(bo.Y); ok && k != "1" {
-						n++
-					}
+				if _, k, _, ok := leqBranch(iff); ok && k != "1" && k != "0" && isInt(iff.Cond.(*ssa.BinOp).X.Type()) && !isByte(iff.Cond.(*ssa.BinOp).X.Type()) {
+					n++
 				}
 			}
 		}
@@ -185,15 +209,13 @@ func ruleHdrEncoder(c *Ctx, r *RuleResult, fnName string, base int64, lead strin
 		return
 	}
 	hostName := c.short(host)
-	stores, lens, _ := encoderHeaders(c, r, host)
+	stores, lens, hostN := encoderHeaders(c, r, host)
 	// every threshold constant the chain uses (also those whose branch has no recognisable stores)
 	thr := map[string]bool{}
 	for _, b := range host.Blocks {
 		if iff, ok := b.Instrs[len(b.Instrs)-1].(*ssa.If); ok {
-			if bo, ok := iff.Cond.(*ssa.BinOp); ok && bo.Op == token.LEQ {
-				if k, ok := constBig(bo.Y); ok {
-					thr[k] = true
-				}
+			if x, k, _, ok := leqBranch(iff); ok && x == hostN {
+				thr[k] = true
 			}
 		}
 	}
